@@ -159,6 +159,7 @@ def check(ctx):
 
     # ---- C16.idempotent ---------------------------------------------------------------------------------------
     _idempotent(ctx, mut, parser, fresh_attrs)
+    _carried_state(ctx, mut, parser)
 
 
 def _grown_paths(mut: Mutations, fn: FuncInfo) -> Dict[Tuple[str, ...], object]:
@@ -336,4 +337,137 @@ def _calls_resetter(ctx, mut: Mutations, parser: ClassInfo, m: FuncInfo, stmt: a
         callee = ctx.prog.lookup_method(parser, f.attr)
         if callee is not None and callee is not m:
             return any(_is_fresh_reset(mut, callee, s, attr) for s in callee.node.body)
+    return False
+
+
+def _carried_state(ctx, mut: Mutations, parser: ClassInfo):
+    """C16.carried: an instance attribute that a public method (transitively, through the parser's own methods and
+    properties) both reads and REBINDS carries a value from one call into the next - also from a call that was left by an
+    exception.  Sound shapes: the method re-initialises the attribute at its top level before the first read, or every
+    rebinding sits in a `try` whose `finally` restores it.  Memo flags (only ever bound to True / False / None) are the
+    business of the stale-return rule."""
+    run = ctx.run
+    methods = dict(parser.methods)
+    direct: Dict[str, Tuple[Set[str], List[Tuple[str, ast.AST]], Set[str]]] = {}
+    for name, m in methods.items():
+        reads: Set[str] = set()
+        writes: List[Tuple[str, ast.AST]] = []
+        calls: Set[str] = set()
+        for n in iter_own_nodes(m.node):
+            if isinstance(n, ast.Attribute) and isinstance(n.value, ast.Name) and n.value.id == 'self':
+                if n.attr in methods:
+                    calls.add(n.attr)
+                elif isinstance(n.ctx, (ast.Store, ast.Del)):
+                    writes.append((n.attr, n))
+                    if isinstance(ctx.prog.parent(n), ast.AugAssign):
+                        reads.add(n.attr)
+                else:
+                    reads.add(n.attr)
+        direct[name] = (reads, writes, calls)
+
+    def closure(name: str) -> Set[str]:
+        seen, work = set(), [name]
+        while work:
+            x = work.pop()
+            if x in seen or x not in direct:
+                continue
+            seen.add(x)
+            work.extend(direct[x][2])
+        return seen
+
+    def reads_of(node: ast.AST, attr: str) -> bool:
+        for n in ast.walk(node):
+            if isinstance(n, ast.Attribute) and isinstance(n.value, ast.Name) and n.value.id == 'self':
+                if n.attr == attr and not isinstance(n.ctx, ast.Store):
+                    return True
+                if n.attr in methods and any(attr in direct[c][0] for c in closure(n.attr)):
+                    return True
+        return False
+
+    n_obl = 0
+    for name, m in sorted(methods.items()):
+        if name.startswith('_') or m.is_property:
+            continue
+        cl = closure(name)
+        rebinds = [(a, n, c) for c in cl if c != '__init__' for a, n in direct[c][1]]
+        all_reads = set().union(*(direct[c][0] for c in cl)) if cl else set()
+        for attr in sorted({a for a, _n, _c in rebinds}):
+            if attr not in all_reads:
+                continue
+            sites = [(n, c) for a, n, c in rebinds if a == attr]
+            vals = []
+            for n, _c in sites:
+                st = ctx.flow.enclosing_stmt(n)
+                vals.append(getattr(st, 'value', None) if isinstance(st, (ast.Assign, ast.AnnAssign)) else None)
+            if all(isinstance(v, ast.Constant) and (v.value is None or isinstance(v.value, bool)) for v in vals):
+                continue        # memo flag: judged by the stale-return rule
+            n_obl += 1
+            body = m.node.body
+            def early_return(st) -> bool:
+                # `if <memo flag>: return <result>`: what such a return hands out is the stale-return rule's business
+                return isinstance(st, ast.If) and not st.orelse and all(isinstance(x, ast.Return) for x in st.body[-1:])
+
+            first_read = next((k for k, st in enumerate(body) if not early_return(st) and reads_of(st, attr)), None)
+            reset = None
+
+            def resets(st, holder: FuncInfo, depth: int = 0) -> bool:
+                if isinstance(st, (ast.Assign, ast.AnnAssign)) and st.value is not None:
+                    tg = st.targets if isinstance(st, ast.Assign) else [st.target]
+                    return any(isinstance(t, ast.Attribute) and isinstance(t.value, ast.Name) and t.value.id == 'self'
+                               and t.attr == attr for t in tg) and not reads_of(st.value, attr)
+                if isinstance(st, ast.Expr) and isinstance(st.value, ast.Call) and isinstance(st.value.func, ast.Attribute) and \
+                        isinstance(st.value.func.value, ast.Name) and st.value.func.value.id == 'self' and depth < 3:
+                    helper = methods.get(st.value.func.attr)
+                    if helper is not None and helper is not holder:
+                        for hs in helper.node.body:
+                            if resets(hs, helper, depth + 1):
+                                return True
+                            if reads_of(hs, attr):
+                                return False
+                return False
+
+            for k, st in enumerate(body):
+                if resets(st, m):
+                    reset = k
+                    break
+            if reset is not None and (first_read is None or reset <= first_read):
+                run.holds('C16.carried', m.module.name, m.qualname, f'{m.qualname} rebinds self.{attr}',
+                          f'self.{attr} is re-initialised at the top of {name}() before it is read')
+                continue
+            # every rebinding restored by a finally clause?
+            unrestored = []
+            for n, c in sites:
+                tr = ctx.flow.enclosing(n, (ast.Try,))
+                restored = False
+                while tr is not None and not restored:
+                    restored = any(isinstance(x, ast.Attribute) and isinstance(x.ctx, ast.Store) and isinstance(x.value, ast.Name)
+                                   and x.value.id == 'self' and x.attr == attr for f_ in tr.finalbody for x in ast.walk(f_))
+                    tr = ctx.flow.enclosing(tr, (ast.Try,))
+                if not restored:
+                    unrestored.append((n, c))
+            # an assignment inside a finalbody is itself the restoring one: keep only the rebinding ones
+            unrestored = [(n, c) for n, c in unrestored if not _in_finalbody(ctx, n)]
+            if not unrestored:
+                run.holds('C16.carried', m.module.name, m.qualname, f'{m.qualname} rebinds self.{attr}',
+                          f'every rebinding of self.{attr} is undone by a finally clause')
+                continue
+            n0, c0 = unrestored[0]
+            run.violation('C16.carried', methods[c0].module.name, methods[c0].qualname, f'{m.qualname} rebinds self.{attr}',
+                          f'self.{attr} is read by {name}() and rebound while it runs (`{ast.unparse(ctx.flow.enclosing_stmt(n0))[:80]}`), '
+                          f'but {name}() does not re-initialise it before the first read and no finally clause restores it: '
+                          f'a call that ends in an exception leaves its value behind for the next call', node=n0)
+    run.stats['carried_state_obligations'] = n_obl
+    if n_obl == 0:
+        run.holds('C16.carried', parser.module.name, parser.name, 'rebound instance attributes',
+                  'no public method of the parser rebinds an instance attribute that it also reads, apart from the result '
+                  'it re-initialises and memo flags')
+
+
+def _in_finalbody(ctx, n: ast.AST) -> bool:
+    p = ctx.prog.parent(n)
+    child = n
+    while p is not None and not isinstance(p, (ast.FunctionDef, ast.AsyncFunctionDef)):
+        if isinstance(p, ast.Try) and any(child is s for s in p.finalbody):
+            return True
+        child, p = p, ctx.prog.parent(p)
     return False
